@@ -597,7 +597,15 @@ func genHeap(r *rand.Rand, s *scriptWriter, ids []string, length int) {
 	// a third of the histories start from well-formed lists that are not normalised (repeated targets, several edges per
 	// source and type): a copy must reproduce them as they are
 	o := listOpts{ids: ids, rich: 0.5, types: edgeTypes2, maxNodes: len(ids), parallel: r.Intn(3) == 0}
-	s.reset(map[string]*sbom.NodeList{"a": randList(r, o), "b": randList(r, o), "c": emptyNL(), "d": emptyNL()})
+	ha, hb := randList(r, o), randList(r, o)
+	if r.Intn(2) == 0 {
+		// a node present in both operands that has dates and nothing else (no list, no map): its dates are mutable
+		// messages like any nested value
+		ha.Nodes = append(ha.Nodes, &sbom.Node{Id: "dates-only", ReleaseDate: &timestamppb.Timestamp{Seconds: 1577934245}})
+		hb.Nodes = append(hb.Nodes, &sbom.Node{Id: "dates-only", ReleaseDate: &timestamppb.Timestamp{Seconds: 946684800, Nanos: 5},
+			BuildDate: &timestamppb.Timestamp{Seconds: 1700166898}})
+	}
+	s.reset(map[string]*sbom.NodeList{"a": ha, "b": hb, "c": emptyNL(), "d": emptyNL()})
 	regs := []string{"a", "b", "c", "d"}
 	for j := 0; j < length; j++ {
 		x, y := pick(r, regs), pick(r, regs)
